@@ -8,6 +8,15 @@ HERE = os.path.dirname(os.path.dirname(os.path.abspath(__file__)))
 
 # pid -> (category, technique, level text, level note, design ref)
 CHECKS = {
+    "C07": (
+        "exploration",
+        "Hypothesis: and/or formula generator x event sequences; oracle = evaluate the boolean formula over events seen; exhaustive permutations for all formula shapes with <=4 leaves",
+        "Every formula shape with <=4 leaves (depth<=3) is run under ALL orders of its leaf events in the three program forms (match / await / when), and "
+        "generated formulas of up to 5 leaves are run against generated event sequences with repetitions and irrelevant events; the marker after the group "
+        "statement must appear at exactly the first step at which the formula evaluates to true over the set of events seen, never earlier and never twice.",
+        "Trusts the 5-line formula evaluator; leaves of one formula are distinct; each leaf flow is `match Ev_i()`; `when` else-branches are not exercised.",
+        "DESIGN.md 4/C07",
+    ),
     "C04": (
         "exploration",
         "Hypothesis: recursive pattern generator + payloads derived from the pattern's witness by structural mutation; differential against an independent reference matcher; exhaustive small-universe table",
